@@ -8,6 +8,8 @@ From SCC Require Import Base.Sexp Lang.AxSyn Sem.AxSem Model.ParMoves Model.Back
 Import ListNotations.
 Open Scope Z_scope.
 Open Scope list_scope.
+(* names that lived in this file before they moved to Proof/SimFrag.v (kept for qualified uses) *)
+Notation entry_int := SimFrag.entry_int (only parsing).
 
 (* entry_int: Proof/SimFrag.v *)
 
@@ -62,7 +64,7 @@ Proof.
   { intros pc c Hc. apply mk_image_code_in in Hc. apply (asm_wf_enc cs WF c Hc). }
   assert (PLT : forall d, In d (ptypes p) -> is_hash_label (label_of_type_name (show_ident (tname d))) = false).
   { unfold plain_types in PLTY. rewrite forallb_forall in PLTY. intros d Hd. specialize (PLTY d Hd).
-    rewrite hash_name_is in PLTY. destruct (is_hash_label _); [discriminate|reflexivity]. }
+    destruct (is_hash_label _); [discriminate|reflexivity]. }
   assert (DEFS : forall d, In d (pdefs p) ->
     exists pcd lcd cd lcd', find_label (labels im) (show_ident (dname d) +++ "_") = Some pcd /\
       PM.find pcd (code im) = Some (LAB (show_ident (dname d) +++ "_")) /\
@@ -73,7 +75,7 @@ Proof.
     assert (NH : is_hash_label (show_ident (dname d) +++ "_") = false).
     { unfold plain_names in PL. rewrite forallb_forall in PL. rewrite <- PD in Hd. specialize (PL d Hd).
       destruct (is_hash_label (show_ident (dname d) +++ "_")) eqn:E; auto.
-      apply is_hash_app_ in E. rewrite hash_name_is, E in PL. discriminate. }
+      apply is_hash_app_ in E. rewrite E in PL. discriminate. }
     destruct (layout_at im cs (preamble ++ su ++ pre) (LAB (show_ident (dname d) +++ "_") :: cd) (post ++ cleanup) CA LA)
       as [CAd LAd].
     { unfold cs. rewrite EQ. rewrite <- !app_assoc. cbn [app]. rewrite <- !app_assoc. reflexivity. }
